@@ -107,10 +107,12 @@ fn c15_long_jump() {
     }
     let regs: [u64; 32] = kani::any();
     let run = a64_run(&w, v.len(), pc as u64, &regs);
-    assert!(run.end == A64End::Jump(target as u64), "OBL:C15.long.lands: the entry sequence transfers control to exactly the trampoline");
-    assert!(run.written & !(1 << 16) == 0, "OBL:C15.long.regs: only x16 (IP0) is written");
-    assert!(run.written & 0x7FF8_01FF == 0, "OBL:C13.a64.long-entry.effect: no argument, indirect-result, callee-saved or link register is written");
-    assert!((v.len() == 1) == (d >= -(1 << 27) && d < (1 << 27)), "OBL:C15.long.short-iff-reach: a single B exactly when the target is within its reach");
+    crate::obligations! {
+        (run.end == A64End::Jump(target as u64)) => "OBL:C15.long.lands: the entry sequence transfers control to exactly the trampoline",
+        (run.written & !(1 << 16) == 0) => "OBL:C15.long.regs: only x16 (IP0) is written",
+        (run.written & 0x7FF8_01FF == 0) => "OBL:C13.a64.long-entry.effect: no argument, indirect-result, callee-saved or link register is written",
+        ((v.len() == 1) == (d >= -(1 << 27) && d < (1 << 27))) => "OBL:C15.long.short-iff-reach: a single B exactly when the target is within its reach",
+    }
     kani::cover!(v.len() == 1, "COVER:short");
     kani::cover!(v.len() == 3, "COVER:long");
     kani::cover!(true, "COVER:end");
